@@ -269,6 +269,70 @@ def feasible_cycle(fn, blocks, head, cap=20000):
     return dfs(head, [head], {head}, {})
 
 
+def feasible_path(fn, start, goal, cap=20000, avoid=()):
+    """Is there a path from block `start` to block `goal` whose branch decisions are consistent: the value of a
+    boolean / integer temporary assigned a constant on the path (`_t = const true` in one arm of a `matches!`)
+    decides later switches on it, and repeated tests of one single-assignment local agree?"""
+    defs = common.defs_of(fn)
+    sm = fn.succ_map()
+    steps = [0]
+
+    def consts_in(x, vals):
+        out = None
+        for st in fn.blocks[x]["stmts"]:
+            if st["k"] == "assign" and not st["place"]["p"]:
+                l = st["place"]["l"]
+                c = common.const_int(st["rv"]["op"]) if st["rv"]["k"] == "use" else None
+                if out is None:
+                    out = dict(vals)
+                if c is not None:
+                    out[l] = c
+                else:
+                    out.pop(l, None)
+        return out if out is not None else vals
+
+    def sw_local(t):
+        op = t["op"]
+        for _ in range(6):
+            if op.get("c") not in ("copy", "move") or op["pl"]["p"]:
+                return None
+            l = op["pl"]["l"]
+            ds = defs.get(l, [])
+            if len(ds) == 1 and ds[0][1] != "term" and ds[0][2]["k"] == "use" and ds[0][2]["op"].get("c") in ("copy", "move") \
+                    and not ds[0][2]["op"]["pl"]["p"]:
+                op = ds[0][2]["op"]
+                continue
+            return l
+        return None
+
+    def dfs(x, onpath, vals):
+        steps[0] += 1
+        if steps[0] > cap:
+            return True           # give up: assume feasible
+        if x == goal:
+            return True
+        vals = consts_in(x, vals)
+        t = fn.blocks[x]["term"]
+        succs = [s2 for s2 in sm[x] if not fn.is_cleanup(s2)]
+        if t["k"] == "switch":
+            l = sw_local(t)
+            if l is not None and l in vals:
+                v = vals[l]
+                tg = t["otherwise"]
+                for val, tgt in t["targets"]:
+                    if val == v:
+                        tg = tgt
+                succs = [tg]
+        for nxt in succs:
+            if nxt in onpath or nxt in avoid:
+                continue
+            if dfs(nxt, onpath | {nxt}, vals):
+                return True
+        return False
+
+    return dfs(start, {start}, {})
+
+
 def loops_check(rule, crate, fn_pred, consuming, exceptions):
     n = 0
     helpers = must_consume_fns(crate, fn_pred, consuming)
